@@ -17,11 +17,15 @@ SPEC = {
     "rule": "exhaustive grid: every endpoint found by reflection on the five registered service objects (50) x caller {the peer itself, "
             "remote B, remote C} x trust configuration {raft; crdt list=[B]; crdt empty list; crdt '*'; after Trust(C); after Distrust(B)} "
             "= 900 real RPCs, plus VERIF_N generated crdt configurations (random list, '*', random Trust/Distrust history) x 150 RPCs; "
+            "call sequences (kind authseq), each on its own fresh peer: caller calls an endpoint, Trust/Distrust calls are made on the real consensus component, the same "
+            "caller calls the same endpoint again (up to 4 calls): 17 fixed (Trust->Distrust->Trust and Distrust->Trust->Distrust on 4 trusted, 1 open, 1 closed endpoint; "
+            "operations on another peer; raft; '*'; the peer itself) + 5*VERIF_N generated (mostly crdt with an explicit list, 70% trusted / 15% open / 15% closed endpoints); "
             "package crdt: every prefix of generated Trust/Distrust histories on 5 fixed + VERIF_N generated configurations "
             "(IsTrustedPeer of 6 peers incl. self after each), and 8 fixed + VERIF_N/4 generated two-peer publications. "
             "non-trivial = every RPC case, every trust case with a non-empty history, every publication; distinct = distinct canonical JSON input",
     "codes": {1: "model_eq_impl (C07: authorize / trust_crdt / validator over the generated tables = what the peer did)",
               2: "spec_okb (C07: a remote caller got past authorization on an endpoint that is neither open nor (trusted-caller and not local-only); or an update signed by an untrusted peer was merged; or a peer that is neither the component itself nor written in trusted_peers (and no \"*\" is) is trusted after loading the configuration)",
+              11: "auth_follows_trust_at_call_time (C07: in a sequence of RPCs and later Trust/Distrust calls on ONE running peer, a remote caller that was not trusted AT THE TIME OF THE CALL was let in on an endpoint that is not open (or anybody on a local-only one), or a caller trusted at the time of the call was refused on a trusted-spec endpoint - e.g. an authorisation function that remembers its first IsTrustedPeer answer per peer: still let in after Distrust, still refused after Trust)",
               10: "open_endpoint_effects (C07: a call an untrusted remote caller was let in with caused, on the called peer, a component call outside the hand-written effect table of that endpoint - e.g. the join handshake Cluster.PeerAdd running the informers (IPFS repo/stat) or publishing metrics)"},
     "trusted": ["tools/gen/policy.go, tools/gen/rpcmethods.go (syntactic; cross-checked at run time: CMethods = reflection on the service objects, CPolicy = cfg.RPCPolicy after Config.Default())",
                 "go-libp2p-gorpc v0.1.3: the authorize function is consulted for every remote call and never for a call through the local server object (observed by the grid, not proved)",
@@ -32,7 +36,10 @@ SPEC = {
                   "is let in only on the hand-written open_spec; every local_only_spec endpoint is refused to every remote caller under every trust function; "
                   "trust_crdt follows configuration and every Trust/Distrust history; broadcasts signed by an untrusted peer never get through the validator. "
                   "Tied to the code by two translators re-run at every check and by an exhaustive grid of real libp2p RPCs plus real crdt components. "
-                  "Monitor theorems (21 of the 44, Proofs/C07_Monitor.v): for every case kind the run-time monitors (codes 1, 2) are sound w.r.t. these "
+                  "Call sequences (auth_follows_trust_changes, trust_state_after_steps, authseq_model_passes_monitor, authseq_monitor_sound, authseq_agreement_sound): for every "
+                  "configuration, history and sequence of (call | Trust | Distrust) steps the model answers each call with the trust state at that moment, and monitor code 11 is sound for "
+                  "'refused when not trusted at the time of the call, let in on trusted endpoints when trusted at the time of the call'. "
+                  "Monitor theorems (Proofs/C07_Monitor.v): for every case kind the run-time monitors (codes 1, 2) are sound w.r.t. these "
                   "statements on the observation, the model's own output passes every monitor for every endpoint name, caller, trust configuration, "
                   "history, configuration file value and message list (no guard), and on any modelled case absence of code 1 implies absence of every code. "
                   "What the open endpoints DO: the harness records every component call (IPFS, tracker, consensus, informers, monitor, call-back) caused by a call an "
